@@ -33,6 +33,10 @@ fn shapes(base: u64, t: u64, with_none: bool) -> Vec<(Option<u64>, Option<u64>)>
         for e in s + 1..=t + 3 {
             v.push((Some(s), Some(e)));
         }
+        v.push((Some(s), Some(u64::MAX)));
+    }
+    if base == 0 {
+        v.push((None, Some(u64::MAX)));
     }
     v.dedup();
     v
@@ -124,7 +128,7 @@ impl Prop for C02 {
         "C02"
     }
     fn rule(&self) -> String {
-        "grid: every chain length T+1 (T in 0..=10) x every accepted option shape (none, -s, -e, -s -e with e up to T+3) x 5 callbacks, one scenario per (T, shape, callback); plus sampled index segments at heights up to 2^40 (VarInt width boundaries, both sides of 2^32) and chains up to 2000 blocks. Marker blocks make every output row reveal its height. Non-trivial = the run was accepted by the CLI and processed at least one block; distinct by scenario document hash.".into()
+        "grid: every chain length T+1 (T in 0..=10) x every accepted option shape (none, -s, -e, -s -e with e up to T+3 and e = 2^64-1) x 5 callbacks, one scenario per (T, shape, callback); plus sampled index segments at heights up to 2^40 (VarInt width boundaries, both sides of 2^32) and chains up to 2000 blocks. Marker blocks make every output row reveal its height. Non-trivial = the run was accepted by the CLI and processed at least one block; distinct by scenario document hash.".into()
     }
     fn exhaustive_note(&self) -> Option<String> {
         Some("the (T<=10) x option-shape x callback grid is enumerated completely; high heights and long chains are sampled".into())
@@ -189,9 +193,11 @@ impl Prop for C02 {
         r.threads = pick_threads(rng);
         r.plan = benign_plan(rng);
         let s = base + rng.below(n as u64);
-        let e = match rng.below(4) {
+        let e = match rng.below(5) {
             0 => None,
             1 => Some(t + rng.range(0, 3)),
+            // far above the tip: the clamp must not do arithmetic on the option value
+            4 => Some(*rng.pick(&[u64::MAX, u64::MAX - 1, 1u64 << 63, 1 << 32, u32::MAX as u64])),
             _ => Some(s + 1 + rng.below((t + 3 - s).max(1))),
         };
         r.start = if base == 0 && rng.chance(1, 4) { None } else { Some(s) };
@@ -228,6 +234,7 @@ impl Prop for C02 {
                     .collect(),
                 xor_key: None,
                 magic_mode: 0,
+                xor_symlink: false,
                 extra_files: vec![],
             }];
             r.disk_faults = (base..s0).map(|hh| DiskFault::RemoveFile { height: hh }).collect();
@@ -256,6 +263,9 @@ impl Prop for C02 {
         let want: Vec<u64> = (s..=e).collect();
         if r.end.map(|x| x > m.tip()).unwrap_or(false) {
             st.probe("end_above_tip");
+        }
+        if r.end == Some(u64::MAX) {
+            st.probe("end_u64_max");
         }
         if r.end == Some(m.tip()) {
             st.probe("end_at_tip");
